@@ -640,6 +640,19 @@ fn run_workload(wl: &Workload, out: &mut Out, source: &str) {
     let recc: Vec<(Vec<String>, Option<(&'static str, String)>)> = r.images.iter().map(|img| recover_ids_checked(img, &by_data, wl.max_size)).collect();
     let compose_complaint: Option<(usize, &'static str, String)> = recc.iter().enumerate().find_map(|(t, (_, c))| c.as_ref().map(|(s, m)| (t, *s, m.clone())));
     let rec: Vec<Vec<String>> = recc.into_iter().map(|(v, _)| v).collect();
+    // ORDER (Props/C10Order.lean recovered_is_subsequence_of_written, model-free): what recovery returns from any
+    // crash image is a subsequence of the writes in the order they were sent — nothing twice, nothing reordered
+    let order_complaint: Option<(usize, String)> = {
+        let pos: HashMap<String, usize> = wl.writes().iter().enumerate().map(|(i, w)| (w.id.to_string(), i)).collect();
+        rec.iter().enumerate().find_map(|(t, ids)| {
+            let ps: Vec<Option<&usize>> = ids.iter().map(|i| pos.get(i)).collect();
+            if ps.iter().all(|p| p.is_some()) && !ps.windows(2).all(|w| w[0].unwrap() < w[1].unwrap()) {
+                Some((t, ids.join(" ")))
+            } else {
+                None
+            }
+        })
+    };
     let crash_s: Vec<String> = rec.iter().map(|v| v.join(" ")).collect();
     out.op(op_line(wl, &r.bases, &r.spawn_failed), format!("acks {} | trace {} | crash {}", acks_s.join(" "), r.trace.join(" "), crash_s.join(" ; ")));
 
@@ -743,6 +756,9 @@ fn run_workload(wl: &Workload, out: &mut Out, source: &str) {
     }
     check_synced_survives(wl, &r, &rec, out, &replay);
     out.count_n("compose-oracle:crash-images-checked", rec.len() as u64);
+    if let Some((t, ids)) = order_complaint {
+        out.violation("C09:compose:recovered-out-of-write-order", &format!("crash image at I/O index {}: recovery returned the writes {} — not a subsequence of the writes in the order they were sent (a duplicate or a reordering)", t, ids), json!({"workload": replay, "crash_index": t, "recovered": ids}));
+    }
     if let Some((t, sig, msg)) = compose_complaint {
         out.violation(sig, &format!("crash image at I/O index {}: {}", t, msg), json!({"workload": replay, "crash_index": t}));
     }
